@@ -35,7 +35,7 @@ m = {
     ],
     "checks": [],
     "not_applicable": [],
-    "notes": "All checks: ./check <id> quick|thorough, replay with ./check <id> --replay <file>. Seeds via VERIF_SEED. Genuine defects repaired by 'fix:' commits or listed in known_findings.json; see DESIGN.md section 5.",
+    "notes": "All checks: ./check <id> quick|thorough, replay with ./check <id> --replay <file>. Seeds via VERIF_SEED. Genuine defects repaired by 'fix:' commits or listed in known_findings.json; see DESIGN.md section 8.2 (dispositions) and 8.4-8.5 (seeded changes, coverage added). Build variants: harness/par (C14 parallel peer), harness/asm (C01, C15), harness/rel (C13); C20 runs a literal triage when its literal grid does not compile.",
 }
 # a property is claimed once its check has produced an evidence file from a run in /verif
 CHECKS = {i: v for i, v in CHECKS.items() if os.path.exists(os.path.join(ROOT, "evidence", i + ".json"))}
